@@ -46,7 +46,7 @@ def gen_cases(tier, seed):
         e = POOL[name]
         for i in range(max(2, reps // e.slow)):
             s = stable_hash(seed, "C20", "par", name, i)
-            cases.append({"wrapper": "par", "entry": name, "seed": s, "n_jobs": [1, 2, 3, "ncand", -1][i % 5],
+            cases.append({"wrapper": "par", "entry": name, "seed": s, "n_jobs": [-1, 2, 3, "ncand", 1][(i + s) % 5],
                           "backend": ["threading", "threading", "loky", "threading"][(s >> 3) % 4] if tier == "thorough" else "threading",
                           "cmode": ["none", "idx", "feat"][(s >> 6) % 3], "perturb": i % 2 == 1, "nmax": 10 if tier == "quick" else 18})
     for name in SUB_OK:
@@ -184,9 +184,11 @@ def run_par(desc, c, e, add, rng):
         qs = P.ParallelUtilityEstimationWrapper(inner, n_jobs=nj, parallel_dict=dict(pd), random_state=seed)
         return call(qs)
 
-    log = [] if desc["backend"] == "threading" else None
+    log = None
+    from vf.monitors import contracts as ct
+    ct.drain()
     try:
-        out = wrapped_call(log)
+        out = wrapped_call(None)
     except steps.StepBudgetExceeded:
         raise
     except Exception as ex:
@@ -201,9 +203,11 @@ def run_par(desc, c, e, add, rng):
     elif _unique_best(u_ref) and np.asarray(out[0]).tolist() != np.asarray(ref[0]).tolist():
         add("parallel-selection-differs-from-inner", "%s vs %s" % (np.asarray(out[0]).tolist(), np.asarray(ref[0]).tolist()))
     chunks = 0
-    if log is not None:
-        chunks = len(log)
-        sizes = [len(r["args"].get("candidates")) for r in log if r["args"].get("candidates") is not None]
+    # the jobs work on copies of the strategy, so the chunk calls are observed through the class-level query contract
+    inner_recs = [r for r in ct.drain() if r["cls"] == e.cls.__name__ and "n_cand" in r]
+    if desc["backend"] == "threading" and nj != 1:
+        chunks = len(inner_recs)
+        sizes = [r["n_cand"] for r in inner_recs]
         if any(s == 0 for s in sizes):
             add("inner-called-with-empty-chunk", "chunk sizes %s" % sizes)
         if sum(sizes) != n_cand and nj != 1:
@@ -313,7 +317,10 @@ def run_sub(desc, c, e, add, rng):
             else:
                 # recover the sub-sample in the caller's index space: the wrapper reports -inf for candidates outside of it
                 row0 = U[0] if len(U) else np.array([])
-                T = np.array([j for j in cands_sorted if not (np.isneginf(row0[j]))]) if len(U) else np.array([], int)
+                if np.isneginf(iU).any():
+                    T = None      # the inner strategy itself reports -inf (e.g. TypiClust): the sub-sample cannot be read off the output
+                else:
+                    T = np.array([j for j in cands_sorted if not (np.isneginf(row0[j]))]) if len(U) else np.array([], int)
     # ---- outputs in the caller's index space
     ncols = len(c.candidates) if feat else c.n
     k = min(c.bs, size)
@@ -412,8 +419,13 @@ def run_case(desc):
     miss = missing_from_registry()
     if miss:
         return {"status": "inconclusive", "reason": "exported strategies not in registry: %s" % miss}
-    c = poolcase.build(dict(desc, batch=None if desc["wrapper"] == "sub" else "1"))
-    why = poolcase.domain(c)
+    def accept(cc):
+        if desc["wrapper"] in ("par", "sub") and cc.cmode == "idx_any":
+            return "candidate mode not applicable"
+        if desc["wrapper"] == "sub" and desc["exclude"] and cc.cmode == "feat" and cc.n_labeled == 0:
+            return "exclude_non_subsample with feature rows needs a labelled sample"
+        return None
+    c, why = poolcase.build_in_domain(dict(desc, batch=None if desc["wrapper"] == "sub" else "1"), accept)
     if why:
         return {"status": "skip", "skip_reason": why}
     e = c.entry
